@@ -13,6 +13,7 @@ import pyside
 import schema_gen as sg
 from pywire import load_corpus
 from vlib import REPO, VERIF, Broken, Check, cbool, clist, cnat, cz, run_workers
+from vlib import run as vrun
 
 HEADER = """From Coq Require Import ZArith List Bool String.
 From BP Require Import Schema JsonBase Json JsonCheck.
@@ -363,17 +364,29 @@ def run_json(ck: Check, prop_file: str, n_quick=(60, 4), n_thorough=(600, 8), op
     cases.extend(gen_cases(ck, ns, nv))
 
     opts = list(opts_quick if ck.quick else opts_thorough)
+    # lib/c/bitproto.c of the tree under test, compiled once per optimisation level
+    rt_obj = {}
+    for o in opts:
+        obj = os.path.join(ck.dir, f"bitproto{o}.o")
+        rc, out, err = vrun(["gcc", o, "-std=c99", "-fPIC", "-w", "-c", "-I", os.path.join(REPO, "lib/c"),
+                             os.path.join(REPO, "lib/c/bitproto.c"), "-o", obj], timeout=300)
+        if rc != 0:
+            ck.violation("lib/c/bitproto.c does not compile: " + err[-300:],
+                         {"error": err[-2000:], "obligation": "tie T2 (C runtime could not be built)"},
+                         found_input=False)
+            return
+        rt_obj[o] = obj
     jobs = []
     for i, (s, vals, origin) in enumerate(cases):
         opt = opts[i % len(opts)]
-        jobs.append(pyside.make_job(ck, i, s, vals, opt=opt))
+        jobs.append(pyside.make_job(ck, i, s, vals, opt=opt, rt_obj=rt_obj[opt]))
     if not ck.quick:
         # the fixed streams once more at every other optimisation level
         for o in opts[1:]:
             for i in range(n_corpus, n_fixed):
                 s, vals, origin = cases[i]
                 cases.append((s, vals, origin + "@" + o))
-                jobs.append(pyside.make_job(ck, len(cases) - 1, s, vals, opt=o))
+                jobs.append(pyside.make_job(ck, len(cases) - 1, s, vals, opt=o, rt_obj=rt_obj[o]))
     t1 = _time.time()
     results = run_workers("run_json.py", jobs, chunk=max(2, len(jobs) // 48), timeout=1200)
     timings["implementation_s"] = round(_time.time() - t1, 1)
